@@ -5,3 +5,6 @@ open GV.ExpGen
 #print axioms Exp_hom
 #print axioms C01expgen_field
 #print axioms C01expgen_eq_model
+#print axioms C01expgen_all_zpow
+#print axioms C01expgen_all_field
+#print axioms C01expgen_all_packages
